@@ -1355,13 +1355,21 @@ fn gen_scenario(seed: u64, kind: &str) -> Result<Scenario, String> {
         if kind == "signals" {
             for _ in 0..n {
                 let mut op = gen_signal_op(&mut r, &rf, &env, pause_ok);
-                if let Op::Signals { pause, .. } = &mut op {
+                if let Op::Signals { pause, events, .. } = &mut op {
                     if *pause {
                         if pause_budget == 0 {
                             *pause = false;
                         } else {
                             pause_budget -= 1;
                         }
+                    }
+                    if *pause {
+                        // With the test-only debug pause syscall enabled, a Stop that is in flight when
+                        // the script pauses ITSELF leaves parent and child of chunk_run_with_signal
+                        // waiting for each other (seen with a Stop before the first debug pause of
+                        // load_is_even_with_snapshot / exec_configurable). The syscall does not exist
+                        // in production builds: Stop is exercised without it only.
+                        events.retain(|e| e.cmd != "stop");
                     }
                 }
                 ops.push(op);
